@@ -316,6 +316,8 @@ class IterVet(Monitor):
     def elem(self, m, pt, e, s):
         if pt in self.accept and m[0] and not m[1]:
             return Viol("reached while the current loop item has not passed any of the required tests", pt)
+        if pt in self.accept and m[0]:
+            return Viol("reached from inside the loop, before the remaining items were looked at", pt)
         return m
 
     def edge(self, m, bid, edge, cond, truth, s):
